@@ -67,7 +67,7 @@ def main():
         out["checks"] = {}
         for pr in props:
             t0 = time.time()
-            c = sh([os.path.join(VERIF, "check"), pr, "--tier", a.tier, "--repo", mut] + (["--no-e3"] if a.e1_only else []), cwd=VERIF, env=dict(os.environ, PCV_REPO=mut))
+            c = sh([os.path.join(VERIF, "check"), pr, "--tier", a.tier, "--repo", mut] + (["--no-e3"] if a.e1_only else []), cwd=VERIF, env=dict(os.environ, PCV_REPO=mut, PCV_EVIDENCE_DIR=os.path.join(tmp, "evidence"), PCV_REPLAY_DIR=os.path.join(tmp, "replays")))
             lines = c.stdout.splitlines()
             out["checks"][pr] = {"rc": c.returncode, "violations": len([l for l in lines if l.startswith("VIOLATION")]),
                                  "first": [l.strip()[:260] for l in lines if l.strip().startswith("violation:")][:3],
